@@ -467,6 +467,12 @@ func (m *Manager) TerminateSession(ctx context.Context, sessionID string, reason
 		m.mu.Unlock()
 		return fmt.Errorf("session not found: %s", sessionID)
 	}
+	if session.State == StateTerminating {
+		// Another caller is between this check and the removal below: the
+		// session is ended once (one release of its addresses, one event)
+		m.mu.Unlock()
+		return fmt.Errorf("session already terminating: %s", sessionID)
+	}
 
 	oldState := session.State
 	session.State = StateTerminating
